@@ -510,6 +510,13 @@ def build_filter(spec):
     af.mmae_antecedent_time = st.scenario_time(0.0)
     af.flags |= FilterFlag.ADAPTIVE_ESTIMATION_START
     af.models = af._createModels(np.array(spec["states"], dtype=float))  # noqa: SLF001
+    # every model is a copy of the nominal filter in everything but its state: in particular the same update variant
+    # (sigma points redrawn before the update or not) and the same tuning
+    if _S.ctx is not None:
+        same = all(bool(getattr(m, "_resample", None)) == bool(u["resample"]) and float(m.gamma) == float(nominal.gamma) for m in af.models)
+        _S.ctx.check(same, "models-differ-from-nominal-filter-settings", f"models built from a nominal filter with resample={bool(u['resample'])} have "
+                     f"resample={[bool(getattr(m, '_resample', None)) for m in af.models][:4]} / gamma {[float(m.gamma) for m in af.models][:2]} vs {float(nominal.gamma)}",
+                     dict(spec), mon="model_settings")
     if spec.get("p_scale"):
         for mdl, s in zip(af.models, spec["p_scale"]):
             mdl.est_p = np.array(spec["P0"], dtype=float) * float(s)
@@ -721,6 +728,10 @@ def _handover(ctx, agent, af, obs, closed, w):
     except Exception as e:  # noqa: BLE001
         ctx.check(False, f"handover-raised-{type(e).__name__}", f"EstimateAgent._handleMMAE raised {type(e).__name__}: {e}"[:300], w, mon="handover")
         return
+    if closed and cf is not None and hasattr(cf, "_resample") and af.models:
+        m0 = af.models[0]
+        ctx.check(bool(cf._resample) == bool(getattr(m0, "_resample", cf._resample)) and float(cf.gamma) == float(m0.gamma), "handed-back-filter-settings-differ",  # noqa: SLF001
+                  f"the filter handed back has resample={bool(cf._resample)}, gamma={float(cf.gamma)}; the surviving model had resample={bool(getattr(m0, '_resample', None))}, gamma={float(m0.gamma)}", w, mon="model_settings")  # noqa: SLF001
     if closed:
         ok = agent.nominal_filter is cf and cf is not None and FilterFlag.ADAPTIVE_ESTIMATION_CLOSE not in af.flags
         ctx.check(ok, "handover-not-converged-filter", "after the close flag the agent's filter is not the adaptive filter's converged_filter", w, mon="handover")
